@@ -132,7 +132,10 @@ func (h *hist) consumerCheckpoint() bool {
 	if m.stop {
 		return false
 	}
-	if m.busyAt >= 0 && m.delivered >= m.busyAt {
+	// busy only once the reader has entered the newest generation: "delivered data followed by removal" is the
+	// statement's premise; a file removed before the reader ever opened it may be skipped as a whole, and the next
+	// one starts with the same bytes (busyAt does not count the prefill, so the threshold alone can be met early)
+	if m.busyAt >= 0 && m.delivered >= m.busyAt && m.cur == len(m.gens)-1 {
 		my := m.armSeq
 		m.held = "consumer"
 		m.heldSeq = my
